@@ -1025,6 +1025,13 @@ func (s *Sim) genEvmTx(deploy bool) *TxSpec {
 			t.Gas = uint64(21000 + r.Intn(30000))
 		}
 		t.Note = "evm-call"
+		if quiet := append(s.contractOf("empty-runtime"), s.contractOf("raw-stop")...); len(quiet) >= 20 && r.Intn(6) == 0 {
+			// a call without data, to an account without code, with EXACTLY the intrinsic gas (21000):
+			// admitted ("covers" means >=) and successful with gas used = gas limit
+			t.To = quiet[:20]
+			t.Data, t.Amount, t.Gas, t.Note = nil, "0", 21000, "evm-call-exact-intrinsic-gas"
+			return t
+		}
 		if r.Intn(12) == 0 {
 			// gas limits of the order of the block's EVM gas pool (25,000,000): two of them do not fit into one block
 			t.Gas = uint64(9000000 + r.Intn(16000001))
